@@ -239,7 +239,11 @@ impl TypedProgram {
             cache_gates: opts.optimize_duplicate_gates,
         };
         let mut circuit = CircuitBuilder::new(input_gates, const_sizes.clone(), builder_opts);
-        for (const_name, const_def) in self.const_defs.iter() {
+        // A const may be defined in terms of consts defined before it, so the definitions must be
+        // bound in the order in which they occur in the source code (not in hash map order)
+        let mut sorted_const_defs: Vec<_> = self.const_defs.iter().collect();
+        sorted_const_defs.sort_by_key(|(_name, const_def)| const_def.meta);
+        for (const_name, const_def) in sorted_const_defs {
             let ConstExpr(expr, _) = &const_def.value;
             match expr {
                 ConstExprEnum::True => env.let_in_current_scope(const_name.clone(), vec![1]),
